@@ -753,3 +753,7 @@ def run(rep: Report, prog: Program, tier: str) -> None:
                                         f"no task to cancel, so this task is left running after close()", construct=f"task self.{sp.targets[0].attr} created after a suspension"))
                 else:
                     rep.ok("C19-LATESPAWN", what, sample="before the first suspension" if verdict is None else "behind a state guard that follows the last suspension")
+
+    # ---------------- C19-SIM: close() between negotiation calls, through the negotiation simulator (rules/pcnego.py)
+    from .pcnego import c19_sim
+    c19_sim(rep, prog, tier)
